@@ -221,7 +221,7 @@ inductive Ev where
   | outcome (o : Outcome) (ds : Details)
   | stage (id : Nat)
   | onExc (h : Nat) (e : Exc)
-deriving Repr
+deriving DecidableEq, Repr
 
 /-- ghost record of executed cleanups (not observable as such) -/
 inductive Ran where
@@ -240,6 +240,8 @@ structure RS where
   nOnExc  : Nat
   ran     : List Ran          -- ghost
   regd    : List Ran          -- ghost: every cleanup ever registered
+  plain   : List DName        -- ghost: names set by plain `addDetail`
+  clobbered : Bool            -- ghost: a plain `addDetail` replaced an entry that was stored under a unique (generated / renamed) name
 
 def stackSize (st : List Cl) : Nat := (st.map Cl.size).sum
 
@@ -272,7 +274,9 @@ def gotAll (s : RS) : List Exc → RS
 def runActs : List Act → RS → RS
   | [], s => s
   | .cleanup c :: as, s => runActs as { s with stack := .stage c :: s.stack, regd := s.regd ++ [.stage c.id] }
-  | .addDetail n c :: as, s => runActs as { s with details := dset s.details n (.user c) }
+  | .addDetail n c :: as, s =>
+      runActs as { s with details := dset s.details n (.user c), plain := n :: s.plain,
+                          clobbered := s.clobbered || (dmem s.details n && !s.plain.contains n) }
   | .expect mid ds :: as, s =>
       let d1 := addUniqueAll s.details s.clock false ds
       runActs as { s with details := addUnique d1 nmExpectation (.expectation mid), ff := true }
@@ -330,8 +334,9 @@ theorem runActs_stack_le (as : List Act) (s : RS) :
       omega
     | addDetail n c =>
       simp only [runActs, Act.sizeList, Act.size]
-      have := ih { s with details := dset s.details n (.user c) }
-      simp at this; omega
+      have := ih { s with details := dset s.details n (.user c), plain := n :: s.plain,
+                          clobbered := s.clobbered || (dmem s.details n && !s.plain.contains n) }
+      simp at this ⊢; omega
     | expect mid ds =>
       simp only [runActs, Act.sizeList, Act.size]
       have := ih { s with details := addUnique (addUniqueAll s.details s.clock false ds) nmExpectation (.expectation mid), ff := true }
@@ -406,7 +411,7 @@ def forcedFailure : Exc := ⟨.failure, 0⟩
 
 def initRS (p : Program) (ff0 : Bool) : RS :=
   { log := [], clock := 0, stack := [], excs := [], ff := ff0, details := [], tbCount := 0,
-    attrs := p.attrs0, nOnExc := p.nOnExc, ran := [], regd := [] }
+    attrs := p.attrs0, nOnExc := p.nOnExc, ran := [], regd := [], plain := [], clobbered := false }
 
 /-- `_run_core` after the skip-decorator test; returns the state and whether `addSuccess` is due -/
 def runCore (p : Program) (ff0 : Bool) : RS × Bool :=
